@@ -1,0 +1,35 @@
+//go:build verif
+
+package main
+
+// Contracts for the deductive verifier in /verif (comment-only file; no code).
+//
+// The patterns of a pattern file are a deterministic function of its bytes:
+// plLen(data) many lines, the j-th being plAt(data, j).
+
+//@ ufunc plLen(data string) int
+//@ ufunc plAt(data string, j int) string
+//@ axiom plLenNonNeg: forall d string :: plLen(d) >= 0
+
+//@ func parsePatternFile
+//@   modifies nothing
+//@   assume_ensures len(result) == plLen(bytes(data)) && (forall j int :: 0 <= j && j < len(result) ==> result[j] == plAt(bytes(data), j))
+//@   ensures fresh(result) || len(result) == 0
+
+// What one command-line argument contributes: itself, or - for "@file" - the
+// patterns of that file ("@" alone: of the empty file).
+//@ spec isFileArg(a string) bool = hasPrefix(a, "@")
+//@ spec argData(a string) string = len(a) == 1 ? "" : fileContent(a[1:])
+//@ spec argLen(a string) int = isFileArg(a) ? plLen(argData(a)) : 1
+//@ spec collectLen(args []string, i int) int = i <= 0 ? 0 : collectLen(args, i-1) + argLen(args[i-1])
+//@ spec collectAt(args []string, i int, j int) string =
+//@    i <= 0 ? "" : (j < collectLen(args, i-1) ? collectAt(args, i-1, j) :
+//@      (isFileArg(args[i-1]) ? plAt(argData(args[i-1]), j - collectLen(args, i-1)) : args[i-1]))
+
+// Every pattern supplied - by arguments, by @files, or both - takes part, in order.
+//@ func argsToPatterns
+//@   modifies nothing
+//@   ensures @all result_1 == nil ==> len(result_0) == collectLen(args, len(args)) &&
+//@      (forall j int :: 0 <= j && j < len(result_0) ==> result_0[j] == collectAt(args, len(args), j))
+//@   loop 0: invariant fresh(patterns) && len(patterns) == collectLen(args, rangeindex + 1)
+//@           invariant forall j int :: 0 <= j && j < len(patterns) ==> patterns[j] == collectAt(args, rangeindex + 1, j)
